@@ -4,7 +4,7 @@
    greatest passing one, the same for every registration order of the routes. *)
 From Model Require Import Str Sexp Http Template Table Curly DetectRoute Jsr311 Router.
 From Spec Require Import RouteSpec RankSpec.
-From Proofs Require Import StrFacts RouterProofs OutcomeProofs RankRouteProofs.
+From Proofs Require Import StrFacts RouterProofs OutcomeProofs RankProofs RankRouteProofs FrameProofs JsrProofs AgreeProofs.
 From Coq Require Import Lia Permutation Sorted.
 
 (* ---- Go's string comparison is a strict total order ---- *)
@@ -165,6 +165,21 @@ Proof.
   apply str_ltb_asym.
 Qed.
 
+Lemma rc_lt_trans a b c : rc_lt a b = true -> rc_lt b c = true -> rc_lt a c = true.
+Proof.
+  unfold rc_lt.
+  destruct (Nat.ltb_spec (rc_literal a) (rc_literal b)); destruct (Nat.ltb_spec (rc_literal b) (rc_literal a)); try lia; try discriminate;
+  destruct (Nat.ltb_spec (rc_literal b) (rc_literal c)); destruct (Nat.ltb_spec (rc_literal c) (rc_literal b)); try lia; try discriminate;
+  destruct (Nat.ltb_spec (rc_literal a) (rc_literal c)); destruct (Nat.ltb_spec (rc_literal c) (rc_literal a)); try lia; try reflexivity.
+  destruct (Nat.ltb_spec (rc_matches a) (rc_matches b)); destruct (Nat.ltb_spec (rc_matches b) (rc_matches a)); try lia; try discriminate;
+  destruct (Nat.ltb_spec (rc_matches b) (rc_matches c)); destruct (Nat.ltb_spec (rc_matches c) (rc_matches b)); try lia; try discriminate;
+  destruct (Nat.ltb_spec (rc_matches a) (rc_matches c)); destruct (Nat.ltb_spec (rc_matches c) (rc_matches a)); try lia; try reflexivity.
+  destruct (Nat.ltb_spec (rc_nondef a) (rc_nondef b)); destruct (Nat.ltb_spec (rc_nondef b) (rc_nondef a)); try lia; try discriminate;
+  destruct (Nat.ltb_spec (rc_nondef b) (rc_nondef c)); destruct (Nat.ltb_spec (rc_nondef c) (rc_nondef b)); try lia; try discriminate;
+  destruct (Nat.ltb_spec (rc_nondef a) (rc_nondef c)); destruct (Nat.ltb_spec (rc_nondef c) (rc_nondef a)); try lia; try reflexivity.
+  apply str_ltb_trans.
+Qed.
+
 Lemma rc_lt_tie a b : rc_lt a b = false -> rc_lt b a = false -> rc_path a = rc_path b.
 Proof.
   unfold rc_lt.
@@ -173,3 +188,583 @@ Proof.
   destruct (Nat.ltb_spec (rc_nondef a) (rc_nondef b)); destruct (Nat.ltb_spec (rc_nondef b) (rc_nondef a)); try lia; try discriminate.
   apply str_ltb_total.
 Qed.
+
+(* ---- detectRoute in terms of "the first route that passes" ---- *)
+Lemma detect_route_inr routes req e : detect_route routes req = inr e -> filter (passes req) routes = [].
+Proof.
+  unfold detect_route.
+  assert (Hall : forall l, filter (fun r0 => matches_accept r0 (effective_accept req))
+                  (filter (fun r => matches_content_type r (hget req H_ContentType))
+                     (filter (fun r => str_eqb (rq_method req) (r_method r))
+                        (filter (fun r => forallb (fun b => b) (r_conds r)) l))) = filter (passes req) l).
+  { intros l. rewrite !filter_filter. apply filter_ext. intros x. unfold passes, conds_hold. now rewrite !andb_assoc. }
+  assert (Hacc : match hget req H_Accept with [] => L "*/*" | a :: l => a :: l end = effective_accept req).
+  { unfold effective_accept. destruct (hget req H_Accept); reflexivity. }
+  rewrite Hacc. rewrite <- Hall.
+  set (c0 := filter _ routes). destruct c0 as [|a0 c0'] eqn:E0; [reflexivity|]. rewrite <- E0.
+  set (c1 := filter _ c0). destruct c1 as [|a1 c1'] eqn:E1; [reflexivity|]. rewrite <- E1.
+  set (c2 := filter _ c1). destruct c2 as [|a2 c2'] eqn:E2.
+  - reflexivity.
+  - cbv beta iota. destruct (filter _ (a2 :: c2')) as [|r0 tl]; [reflexivity|discriminate].
+Qed.
+
+Lemma find_filter_head {A} (P : A -> bool) l : find P l = match filter P l with x :: _ => Some x | [] => None end.
+Proof. induction l as [|y l IH]; [reflexivity|]. cbn. destruct (P y); [reflexivity|exact IH]. Qed.
+
+Lemma find_map {A B} (f : A -> B) (P : B -> bool) l : find P (map f l) = option_map f (find (fun x => P (f x)) l).
+Proof. induction l as [|y l IH]; [reflexivity|]. cbn. destruct (P (f y)); [reflexivity|exact IH]. Qed.
+
+Lemma detect_route_find routes req :
+  match find (passes req) routes with
+  | Some r => detect_route routes req = inl r
+  | None => exists e, detect_route routes req = inr e
+  end.
+Proof.
+  rewrite find_filter_head. destruct (detect_route routes req) as [r|e] eqn:E.
+  - apply detect_route_first in E as (tl & ->). reflexivity.
+  - rewrite (detect_route_inr _ _ _ E). eauto.
+Qed.
+
+(* two error answers that meet the same declarative outcome are the same error up to the
+   order of the Allow list *)
+Lemma meets_same_error S e e' :
+  meets S (detect_view (inr e)) = true -> meets S (detect_view (inr e')) = true -> rerr_equiv e e'.
+Proof.
+  destruct S as [ids|code al]; destruct e as [|a| |], e' as [|a'| |]; unfold meets, detect_view, outcome_meets; cbv beta iota zeta;
+    intros H1 H2;
+    repeat (apply andb_true_iff in H1 as [H1 ?]); repeat (apply andb_true_iff in H2 as [H2 ?]);
+    repeat match goal with H : Z.eqb _ _ = true |- _ => apply Z.eqb_eq in H end; try lia; try exact Logic.I.
+  cbn. intros m. rewrite !forallb_forall in *. split; intros Hm.
+  - apply mem_In. match goal with H : forall x, In x al -> mem x a' = true |- _ => apply H end.
+    apply mem_In. match goal with H : forall x, In x a -> mem x al = true |- _ => now apply H end.
+  - apply mem_In. match goal with H : forall x, In x al -> mem x a = true |- _ => apply H end.
+    apply mem_In. match goal with H : forall x, In x a' -> mem x al = true |- _ => now apply H end.
+Qed.
+
+Section CurlyOrder.
+Variable O : oracles.
+
+(* the candidate CurlyRouter builds for a route is a function of the root and the route *)
+Definition cand_of (w : service) (qts : list str) (r : route) : list curly_cand :=
+  match matches_route_by_path_tokens O (route_parts w r) qts (route_hcv w r) with
+  | Some (pc, sc) => [{| cc_route := r; cc_param := pc; cc_static := sc; cc_path := route_path w r |}]
+  | None => []
+  end.
+
+Lemma cand_of_root w w' qts r : s_root w = s_root w' -> cand_of w qts r = cand_of w' qts r.
+Proof. intros H. unfold cand_of, route_parts, route_hcv, route_path. now rewrite H. Qed.
+
+Lemma In_cand_of w qts r c : In c (cand_of w qts r) -> cc_route c = r /\ cc_path c = route_path w r.
+Proof.
+  unfold cand_of. destruct (matches_route_by_path_tokens O (route_parts w r) qts (route_hcv w r)) as [[pc sc]|]; [|contradiction].
+  intros H. destruct H as [<-|[]]. auto.
+Qed.
+
+Lemma NoDup_map_inj {A B} (f : A -> B) l a b : NoDup (map f l) -> In a l -> In b l -> f a = f b -> a = b.
+Proof.
+  induction l as [|x l IH]; [contradiction|]. cbn. intros Hnd Ha Hb Hf. inversion Hnd as [|? ? Hx Hnd']; subst.
+  destruct Ha as [<-|Ha], Hb as [<-|Hb]; [reflexivity| | |now apply IH].
+  - exfalso. apply Hx. rewrite Hf. now apply in_map.
+  - exfalso. apply Hx. rewrite <- Hf. now apply in_map.
+Qed.
+
+(* Route level: a service and a copy of it with its routes registered in another order give
+   every request the same answer, provided no two routes of one method have the same path *)
+Theorem curly_routes_order_independent w w' qts req :
+  s_root w = s_root w' -> Permutation (s_routes w) (s_routes w') ->
+  NoDup (map (route_key w) (s_routes w)) ->
+  detect_equiv (detect_route (map cc_route (curly_select_routes O w qts)) req)
+               (detect_route (map cc_route (curly_select_routes O w' qts)) req).
+Proof.
+  intros Hroot Hperm Hnd.
+  set (cs := flat_map (cand_of w qts) (s_routes w)).
+  set (cs' := flat_map (cand_of w' qts) (s_routes w')).
+  assert (Hcs : curly_select_routes O w qts = sort_desc cc_lt cs) by reflexivity.
+  assert (Hcs' : curly_select_routes O w' qts = sort_desc cc_lt cs') by reflexivity.
+  assert (Hp : Permutation cs cs').
+  { subst cs cs'. rewrite (flat_map_ext _ _ (fun r => cand_of_root w w' qts r Hroot)).
+    clear -Hperm. induction Hperm; cbn [flat_map].
+    - constructor.
+    - now apply Permutation_app_head.
+    - rewrite !app_assoc. apply Permutation_app_tail, Permutation_app_comm.
+    - etransitivity; eauto. }
+  (* the same first passing candidate *)
+  assert (Hfind : find (fun c => passes req (cc_route c)) (sort_desc cc_lt cs)
+                = find (fun c => passes req (cc_route c)) (sort_desc cc_lt cs')).
+  { apply (sorted_find_perm cc_lt cc_lt_asym cc_lt_trans); [exact Hp|].
+    intros a b Ha Hb Pa Pb Hab Hba.
+    pose proof (cc_lt_tie a b Hab Hba) as Hpath.
+    subst cs. apply in_flat_map in Ha as (ra & Hra & Hca). apply in_flat_map in Hb as (rb & Hrb & Hcb).
+    pose proof (In_cand_of _ _ _ _ Hca) as [Ea Epa]. pose proof (In_cand_of _ _ _ _ Hcb) as [Eb Epb].
+    assert (Hrr : ra = rb).
+    { apply (NoDup_map_inj (route_key w) (s_routes w)); try assumption. unfold route_key.
+      rewrite <- Epa, <- Epb, Hpath. f_equal.
+      unfold passes in Pa, Pb. rewrite Ea in Pa. rewrite Eb in Pb.
+      repeat (apply andb_true_iff in Pa as [Pa ?]). repeat (apply andb_true_iff in Pb as [Pb ?]).
+      repeat match goal with H : str_eqb _ _ = true |- _ => apply str_eqb_eq in H end. congruence. }
+    rewrite <- Hrr in Hcb. unfold cand_of in Hca, Hcb.
+    destruct (matches_route_by_path_tokens O (route_parts w ra) qts (route_hcv w ra)) as [[pc sc]|]; [|contradiction].
+    cbn [In] in Hca, Hcb. destruct Hca as [Hca|[]]. destruct Hcb as [Hcb|[]]. congruence. }
+  rewrite Hcs, Hcs'.
+  pose proof (detect_route_find (map cc_route (sort_desc cc_lt cs)) req) as D.
+  pose proof (detect_route_find (map cc_route (sort_desc cc_lt cs')) req) as D'.
+  rewrite find_map in D, D'. rewrite <- Hfind in D'.
+  destruct (find (fun c => passes req (cc_route c)) (sort_desc cc_lt cs)) as [c|]; cbn [option_map] in D, D'.
+  - rewrite D, D'. reflexivity.
+  - destruct D as (e & De). destruct D' as (e' & De'). rewrite De, De'. cbn.
+    apply (meets_same_error (spec_cascade (map cc_route (sort_desc cc_lt cs)) req)).
+    + rewrite <- De. apply detect_route_meets.
+    + rewrite <- De'.
+      rewrite (spec_cascade_perm (map cc_route (sort_desc cc_lt cs)) (map cc_route (sort_desc cc_lt cs')) req).
+      * apply detect_route_meets.
+      * apply Permutation_map. rewrite !(sort_desc_perm cc_lt). exact Hp.
+Qed.
+End CurlyOrder.
+
+(* ---- service level and the whole answer, CurlyRouter ---- *)
+Section CurlyTable.
+Variable O : oracles.
+
+Lemma detect_ws_loop_some qts wss : forall b sc, exists w, detect_ws_loop O qts wss (Some b) sc = Some w.
+Proof.
+  induction wss as [|x wss IH]; intros b sc; cbn [detect_ws_loop]; [eauto|].
+  destruct (compute_webservice_score O qts (tokenize (s_root x))) as [m s]. destruct (m && Z.ltb sc (Z.of_nat s)); apply IH.
+Qed.
+
+Lemma detect_none_iff qts wss :
+  detect_web_service O qts wss = None <-> forall w, In w wss -> claims O qts w = false.
+Proof.
+  unfold detect_web_service, claims. induction wss as [|x wss IH]; cbn [detect_ws_loop].
+  - split; [intros _ w []|reflexivity].
+  - destruct (compute_webservice_score O qts (tokenize (s_root x))) as [m s] eqn:E. destruct m; cbn [andb].
+    + assert (Hlt : Z.ltb (-1) (Z.of_nat s) = true) by (apply Z.ltb_lt; lia). rewrite Hlt. split.
+      * intros H. destruct (detect_ws_loop_some qts wss x (Z.of_nat s)) as (w & Hw). congruence.
+      * intros H. specialize (H x (or_introl eq_refl)). rewrite E in H. discriminate.
+    + rewrite IH. split.
+      * intros H w [<-|Hw]; [now rewrite E|now apply H].
+      * intros H w Hw. apply H. now right.
+Qed.
+
+Lemma tbl_perm_back t t' w' : tbl_perm t t' -> In w' (t_services t') -> exists w, In w (t_services t) /\ svc_perm w w'.
+Proof.
+  intros (l & Hf & Hp) Hin. apply (Permutation_in _ (Permutation_sym Hp)) in Hin.
+  clear Hp. induction Hf as [|a b la lb Hab Hf IH]; [contradiction|]. destruct Hin as [<-|Hin].
+  - exists a. split; [now left|exact Hab].
+  - destruct (IH Hin) as (w & Hw & Hs). exists w. split; [now right|exact Hs].
+Qed.
+
+Lemma tbl_perm_fwd t t' w : tbl_perm t t' -> In w (t_services t) -> exists w', In w' (t_services t') /\ svc_perm w w'.
+Proof.
+  intros (l & Hf & Hp) Hin.
+  assert (exists w', In w' l /\ svc_perm w w') as (w' & Hw' & Hs).
+  { clear Hp. induction Hf as [|a b la lb Hab Hf IH]; [contradiction|]. destruct Hin as [<-|Hin].
+    - exists b. split; [now left|exact Hab].
+    - destruct (IH Hin) as (w' & Hw' & Hs). exists w'. split; [now right|exact Hs]. }
+  exists w'. split; [now apply (Permutation_in _ Hp)|exact Hs].
+Qed.
+
+Lemma claims_root qts w w' : s_root w = s_root w' -> claims O qts w = claims O qts w' /\ score O qts w = score O qts w'.
+Proof. intros H. unfold claims, score. now rewrite H. Qed.
+
+(* the chosen service is the same one, whatever the order of registration *)
+Lemma detect_perm t t' qts :
+  tbl_perm t t' -> no_tie O qts (t_services t) ->
+  match detect_web_service O qts (t_services t), detect_web_service O qts (t_services t') with
+  | Some w, Some w' => svc_perm w w'
+  | None, None => True
+  | _, _ => False
+  end.
+Proof.
+  intros Hperm Hnt.
+  destruct (detect_web_service O qts (t_services t)) as [w|] eqn:E; destruct (detect_web_service O qts (t_services t')) as [w'|] eqn:E'.
+  - destruct (detect_web_service_max O _ _ _ E) as (Hin & Hc & Hmax).
+    destruct (detect_web_service_max O _ _ _ E') as (Hin' & Hc' & Hmax').
+    destruct (tbl_perm_back _ _ _ Hperm Hin') as (w2 & Hin2 & Hs2).
+    destruct (tbl_perm_fwd _ _ _ Hperm Hin) as (wc & Hinc & Hsc).
+    destruct (claims_root qts w2 w' (proj1 Hs2)) as [C2 S2]. destruct (claims_root qts w wc (proj1 Hsc)) as [Cc Sc].
+    unfold claims, score in *.
+    assert (Hc2 : fst (compute_webservice_score O qts (tokenize (s_root w2))) = true) by congruence.
+    assert (Hcc : fst (compute_webservice_score O qts (tokenize (s_root wc))) = true) by congruence.
+    pose proof (Hmax w2 Hin2 Hc2) as L1. pose proof (Hmax' wc Hinc Hcc) as L2.
+    assert (w = w2) by (apply Hnt; unfold claims, score; auto; lia). subst w2. exact Hs2.
+  - rewrite detect_none_iff in E'. destruct (detect_web_service_max O _ _ _ E) as (Hin & Hc & _).
+    destruct (tbl_perm_fwd _ _ _ Hperm Hin) as (wc & Hinc & Hsc).
+    destruct (claims_root qts w wc (proj1 Hsc)) as [Cc _]. unfold claims in *. rewrite (E' wc Hinc) in Cc. congruence.
+  - rewrite detect_none_iff in E. destruct (detect_web_service_max O _ _ _ E') as (Hin' & Hc' & _).
+    destruct (tbl_perm_back _ _ _ Hperm Hin') as (w2 & Hin2 & Hs2).
+    destruct (claims_root qts w2 w' (proj1 Hs2)) as [C2 _]. unfold claims in *. rewrite (E w2 Hin2) in C2. congruence.
+  - exact Logic.I.
+Qed.
+
+Lemma select_route_curly t req :
+  t_router t = Curly ->
+  select_route O t req =
+    match detect_web_service O (tokenize (rq_path req)) (t_services t) with
+    | None => inr E404
+    | Some w => match detect_route (map cc_route (curly_select_routes O w (tokenize (rq_path req)))) req with
+                | inl r => inl (w, r)
+                | inr e => inr e
+                end
+    end.
+Proof.
+  intros Hr. unfold select_route. rewrite Hr.
+  destruct (detect_web_service O (tokenize (rq_path req)) (t_services t)) as [w|]; [|reflexivity].
+  destruct (curly_select_routes O w (tokenize (rq_path req))); reflexivity.
+Qed.
+
+(* C03, order independence, CurlyRouter: a table and any re-ordering of its services and of the
+   routes inside them answer every request alike — same route function with the same
+   parameters, or the same error with the same Allow set — when no two routes of one method in
+   a service have the same path and no two claiming services tie on the score *)
+Theorem curly_order_independent t t' req :
+  t_router t = Curly -> t_router t' = Curly ->
+  tbl_perm t t' ->
+  (forall w, In w (t_services t) -> NoDup (map (route_key w) (s_routes w))) ->
+  no_tie O (tokenize (rq_path req)) (t_services t) ->
+  routed_equiv_perm (route_request O t req) (route_request O t' req).
+Proof.
+  intros Hr Hr' Hperm Hkeys Hnt. unfold route_request.
+  rewrite (select_route_curly t req Hr), (select_route_curly t' req Hr').
+  pose proof (detect_perm t t' _ Hperm Hnt) as Hd.
+  destruct (detect_web_service O (tokenize (rq_path req)) (t_services t)) as [w|] eqn:E;
+  destruct (detect_web_service O (tokenize (rq_path req)) (t_services t')) as [w'|] eqn:E'; try contradiction; [|cbn; exact Logic.I].
+  destruct Hd as [Hroot Hroutes].
+  assert (Hin : In w (t_services t)) by (now apply detect_web_service_max in E as (Hin & _)).
+  pose proof (curly_routes_order_independent O w w' (tokenize (rq_path req)) req Hroot Hroutes (Hkeys w Hin)) as He.
+  destruct (detect_route (map cc_route (curly_select_routes O w (tokenize (rq_path req)))) req) as [r|e];
+  destruct (detect_route (map cc_route (curly_select_routes O w' (tokenize (rq_path req)))) req) as [r'|e']; cbn in He; try contradiction.
+  - subst r'. unfold extract_parameters. rewrite Hr, Hr'. unfold curly_extract_parameters, route_hcv, route_parts, route_path. rewrite <- Hroot.
+    destruct (extract_loop _ 0 _ _ []); cbn; [|exact Logic.I]. repeat split; auto.
+  - exact He.
+Qed.
+End CurlyTable.
+
+(* ---- RouterJSR311, route level ---- *)
+Section JsrOrder.
+Variable O : oracles.
+
+Definition jcand_of (w : service) (fin : str) (r : route) : list route_cand :=
+  let pe := path_expression (r_rel r) in
+  match jsr_match O (pe_toks pe) fin with
+  | Some (caps, f2) =>
+      if final_ok f2 then
+        [{| rc_route := r; rc_matches := S (List.length caps); rc_literal := pe_literal pe;
+            rc_nondef := pe_vars pe; rc_path := route_path w r |}]
+      else []
+  | None => []
+  end.
+
+Lemma jcand_of_root w w' fin r : s_root w = s_root w' -> jcand_of w fin r = jcand_of w' fin r.
+Proof. intros H. unfold jcand_of, route_path. now rewrite H. Qed.
+
+Lemma In_jcand_of w fin r c : In c (jcand_of w fin r) -> rc_route c = r /\ rc_path c = route_path w r.
+Proof.
+  unfold jcand_of. cbv zeta. destruct (jsr_match O (pe_toks (path_expression (r_rel r))) fin) as [[caps f2]|]; [|contradiction].
+  destruct (final_ok f2); [|contradiction]. intros H. destruct H as [<-|[]]. auto.
+Qed.
+
+Theorem jsr_routes_order_independent w w' fin req :
+  s_root w = s_root w' -> Permutation (s_routes w) (s_routes w') ->
+  NoDup (map (route_key w) (s_routes w)) ->
+  detect_equiv (detect_route (map rc_route (jsr_select_routes O w fin)) req)
+               (detect_route (map rc_route (jsr_select_routes O w' fin)) req).
+Proof.
+  intros Hroot Hperm Hnd.
+  set (cs := flat_map (jcand_of w fin) (s_routes w)).
+  set (cs' := flat_map (jcand_of w' fin) (s_routes w')).
+  assert (Hcs : jsr_select_routes O w fin = sort_desc rc_lt cs) by reflexivity.
+  assert (Hcs' : jsr_select_routes O w' fin = sort_desc rc_lt cs') by reflexivity.
+  assert (Hp : Permutation cs cs').
+  { subst cs cs'. rewrite (flat_map_ext _ _ (fun r => jcand_of_root w w' fin r Hroot)).
+    clear -Hperm. induction Hperm; cbn [flat_map].
+    - constructor.
+    - now apply Permutation_app_head.
+    - rewrite !app_assoc. apply Permutation_app_tail, Permutation_app_comm.
+    - etransitivity; eauto. }
+  assert (Hfind : find (fun c => passes req (rc_route c)) (sort_desc rc_lt cs)
+                = find (fun c => passes req (rc_route c)) (sort_desc rc_lt cs')).
+  { apply (sorted_find_perm rc_lt rc_lt_asym rc_lt_trans); [exact Hp|].
+    intros a b Ha Hb Pa Pb Hab Hba.
+    pose proof (rc_lt_tie a b Hab Hba) as Hpath.
+    subst cs. apply in_flat_map in Ha as (ra & Hra & Hca). apply in_flat_map in Hb as (rb & Hrb & Hcb).
+    pose proof (In_jcand_of _ _ _ _ Hca) as [Ea Epa]. pose proof (In_jcand_of _ _ _ _ Hcb) as [Eb Epb].
+    assert (Hrr : ra = rb).
+    { apply (NoDup_map_inj (route_key w) (s_routes w)); try assumption. unfold route_key.
+      rewrite <- Epa, <- Epb, Hpath. f_equal.
+      unfold passes in Pa, Pb. rewrite Ea in Pa. rewrite Eb in Pb.
+      repeat (apply andb_true_iff in Pa as [Pa ?]). repeat (apply andb_true_iff in Pb as [Pb ?]).
+      repeat match goal with H : str_eqb _ _ = true |- _ => apply str_eqb_eq in H end. congruence. }
+    rewrite <- Hrr in Hcb. unfold jcand_of in Hca, Hcb. cbv zeta in Hca, Hcb.
+    destruct (jsr_match O (pe_toks (path_expression (r_rel ra))) fin) as [[caps f2]|]; [|contradiction].
+    destruct (final_ok f2); [|contradiction].
+    cbn [In] in Hca, Hcb. destruct Hca as [Hca|[]]. destruct Hcb as [Hcb|[]]. congruence. }
+  rewrite Hcs, Hcs'.
+  pose proof (detect_route_find (map rc_route (sort_desc rc_lt cs)) req) as D.
+  pose proof (detect_route_find (map rc_route (sort_desc rc_lt cs')) req) as D'.
+  rewrite find_map in D, D'. rewrite <- Hfind in D'.
+  destruct (find (fun c => passes req (rc_route c)) (sort_desc rc_lt cs)) as [c|]; cbn [option_map] in D, D'.
+  - rewrite D, D'. reflexivity.
+  - destruct D as (e & De). destruct D' as (e' & De'). rewrite De, De'. cbn.
+    apply (meets_same_error (spec_cascade (map rc_route (sort_desc rc_lt cs)) req)).
+    + rewrite <- De. apply detect_route_meets.
+    + rewrite <- De'.
+      rewrite (spec_cascade_perm (map rc_route (sort_desc rc_lt cs)) (map rc_route (sort_desc rc_lt cs')) req).
+      * apply detect_route_meets.
+      * apply Permutation_map. rewrite !(sort_desc_perm rc_lt). exact Hp.
+Qed.
+End JsrOrder.
+
+(* ---- RouterJSR311, service level and the whole answer ---- *)
+Lemma dc_lt_asym a b : dc_lt a b = true -> dc_lt b a = false.
+Proof.
+  unfold dc_lt.
+  destruct (Nat.ltb_spec (dc_matches a) (dc_matches b)); destruct (Nat.ltb_spec (dc_matches b) (dc_matches a)); try lia; try discriminate; try reflexivity.
+  destruct (Nat.ltb_spec (dc_literal a) (dc_literal b)); destruct (Nat.ltb_spec (dc_literal b) (dc_literal a)); try lia; try discriminate; try reflexivity.
+  destruct (Nat.ltb_spec (dc_nondef a) (dc_nondef b)); destruct (Nat.ltb_spec (dc_nondef b) (dc_nondef a)); try lia; try discriminate; reflexivity.
+Qed.
+
+Lemma dc_lt_trans a b c : dc_lt a b = true -> dc_lt b c = true -> dc_lt a c = true.
+Proof.
+  unfold dc_lt.
+  destruct (Nat.ltb_spec (dc_matches a) (dc_matches b)); destruct (Nat.ltb_spec (dc_matches b) (dc_matches a)); try lia; try discriminate;
+  destruct (Nat.ltb_spec (dc_matches b) (dc_matches c)); destruct (Nat.ltb_spec (dc_matches c) (dc_matches b)); try lia; try discriminate;
+  destruct (Nat.ltb_spec (dc_matches a) (dc_matches c)); destruct (Nat.ltb_spec (dc_matches c) (dc_matches a)); try lia; try reflexivity.
+  destruct (Nat.ltb_spec (dc_literal a) (dc_literal b)); destruct (Nat.ltb_spec (dc_literal b) (dc_literal a)); try lia; try discriminate;
+  destruct (Nat.ltb_spec (dc_literal b) (dc_literal c)); destruct (Nat.ltb_spec (dc_literal c) (dc_literal b)); try lia; try discriminate;
+  destruct (Nat.ltb_spec (dc_literal a) (dc_literal c)); destruct (Nat.ltb_spec (dc_literal c) (dc_literal a)); try lia; try reflexivity.
+  destruct (Nat.ltb_spec (dc_nondef a) (dc_nondef b)); destruct (Nat.ltb_spec (dc_nondef b) (dc_nondef c)); try lia; try discriminate.
+  intros _ _. apply Nat.ltb_lt. lia.
+Qed.
+
+Lemma dc_lt_tie a b : dc_lt a b = false -> dc_lt b a = false ->
+  dc_matches a = dc_matches b /\ dc_literal a = dc_literal b /\ dc_nondef a = dc_nondef b.
+Proof.
+  unfold dc_lt.
+  destruct (Nat.ltb_spec (dc_matches a) (dc_matches b)); destruct (Nat.ltb_spec (dc_matches b) (dc_matches a)); try lia; try discriminate.
+  destruct (Nat.ltb_spec (dc_literal a) (dc_literal b)); destruct (Nat.ltb_spec (dc_literal b) (dc_literal a)); try lia; try discriminate.
+  destruct (Nat.ltb_spec (dc_nondef a) (dc_nondef b)); destruct (Nat.ltb_spec (dc_nondef b) (dc_nondef a)); try lia; try discriminate.
+Qed.
+
+Section JsrTable.
+Variable O : oracles.
+
+Definition dcand_of (path : str) (w : service) : list disp_cand :=
+  let pe := path_expression (s_root w) in
+  match jsr_match O (pe_toks pe) path with
+  | Some (caps, fin) =>
+      [{| dc_ws := w; dc_final := fin; dc_matches := S (S (List.length caps));
+          dc_literal := pe_literal pe; dc_nondef := pe_vars pe |}]
+  | None => []
+  end.
+
+Lemma In_dcand_of path w c : In c (dcand_of path w) -> dc_ws c = w /\ dcand_of path w = [c].
+Proof.
+  unfold dcand_of. cbv zeta. destruct (jsr_match O (pe_toks (path_expression (s_root w))) path) as [[caps fin]|]; [|contradiction].
+  intros H. destruct H as [<-|[]]. auto.
+Qed.
+
+Lemma dcand_of_root path w w' c c' :
+  s_root w = s_root w' -> In c (dcand_of path w) -> In c' (dcand_of path w') ->
+  dc_matches c = dc_matches c' /\ dc_literal c = dc_literal c' /\ dc_nondef c = dc_nondef c'.
+Proof.
+  unfold dcand_of. cbv zeta. intros <-.
+  destruct (jsr_match O (pe_toks (path_expression (s_root w))) path) as [[caps fin]|]; [|contradiction].
+  intros H H'. destruct H as [<-|[]]. destruct H' as [<-|[]]. auto.
+Qed.
+
+Lemma head_find {A} (l : list A) : find (fun _ => true) l = match l with x :: _ => Some x | [] => None end.
+Proof. destruct l; reflexivity. Qed.
+
+Lemma detect_dispatcher_perm path l l' :
+  Permutation l l' -> NoDup (map s_root l) -> jsr_no_tie O path l ->
+  detect_dispatcher O path l = detect_dispatcher O path l'.
+Proof.
+  intros Hperm Hnd Hnt. unfold detect_dispatcher.
+  change (dispatcher_cands O path l) with (flat_map (dcand_of path) l).
+  change (dispatcher_cands O path l') with (flat_map (dcand_of path) l').
+  assert (Hp : Permutation (flat_map (dcand_of path) l) (flat_map (dcand_of path) l')).
+  { clear -Hperm. induction Hperm; cbn [flat_map].
+    - constructor.
+    - now apply Permutation_app_head.
+    - rewrite !app_assoc. apply Permutation_app_tail, Permutation_app_comm.
+    - etransitivity; eauto. }
+  pose proof (sorted_find_perm dc_lt dc_lt_asym dc_lt_trans (fun _ => true) _ _ Hp) as Hf.
+  rewrite !head_find in Hf.
+  assert (Hcmp : forall a b, In a (flat_map (dcand_of path) l) -> In b (flat_map (dcand_of path) l) ->
+                 true = true -> true = true -> dc_lt a b = false -> dc_lt b a = false -> a = b);
+    [|specialize (Hf Hcmp);
+      destruct (sort_desc dc_lt (flat_map (dcand_of path) l)), (sort_desc dc_lt (flat_map (dcand_of path) l')); try discriminate Hf;
+      [reflexivity|now injection Hf as ->]].
+  intros a b Ha Hb _ _ Hab Hba. destruct (dc_lt_tie a b Hab Hba) as (K1 & K2 & K3).
+  apply in_flat_map in Ha as (wa & Hwa & Hca). apply in_flat_map in Hb as (wb & Hwb & Hcb).
+  assert (Hroot : s_root wa = s_root wb).
+  { apply (Hnt wa wb (dc_matches a, dc_literal a, dc_nondef a) Hwa Hwb).
+    - unfold jsr_key, dcand_of in *. cbv zeta in *.
+      destruct (jsr_match O (pe_toks (path_expression (s_root wa))) path) as [[caps fin]|]; [|contradiction].
+      destruct Hca as [<-|[]]. reflexivity.
+    - unfold jsr_key, dcand_of in *. cbv zeta in *.
+      destruct (jsr_match O (pe_toks (path_expression (s_root wb))) path) as [[caps fin]|]; [|contradiction].
+      destruct Hcb as [<-|[]]. cbn. now rewrite K1, K2, K3. }
+  assert (wa = wb) by (apply (NoDup_map_inj s_root l); assumption). subst wb.
+  destruct (In_dcand_of _ _ _ Hca) as [_ Ea]. rewrite Ea in Hcb. destruct Hcb as [<-|[]]. reflexivity.
+Qed.
+
+Lemma detect_dispatcher_svc_perm path l l' :
+  Forall2 svc_perm l l' ->
+  match detect_dispatcher O path l, detect_dispatcher O path l' with
+  | Some (w, fin), Some (w', fin') => svc_perm w w' /\ fin = fin'
+  | None, None => True
+  | _, _ => False
+  end.
+Proof.
+  intros Hf. unfold detect_dispatcher.
+  pose proof (sort_desc_rel svc_perm _ _
+                (dispatcher_cands_rel O svc_perm path _ _ (fun w w' H => proj1 H) Hf)) as Hs.
+  destruct (sort_desc dc_lt (dispatcher_cands O path l)) as [|c cs];
+  destruct (sort_desc dc_lt (dispatcher_cands O path l')) as [|c' cs']; inversion Hs as [|? ? ? ? Hc Hl]; subst; [exact Logic.I|].
+  destruct Hc as (Hw & Hfin & _). auto.
+Qed.
+
+Lemma select_route_jsr t req :
+  t_router t = Jsr311 ->
+  select_route O t req =
+    match detect_dispatcher O (rq_path req) (t_services t) with
+    | None => inr E404
+    | Some (w, fin) => match detect_route (map rc_route (jsr_select_routes O w fin)) req with
+                       | inl r => inl (w, r)
+                       | inr e => inr e
+                       end
+    end.
+Proof.
+  intros Hr. unfold select_route. rewrite Hr.
+  destruct (detect_dispatcher O (rq_path req) (t_services t)) as [[w fin]|]; [|reflexivity].
+  destruct (jsr_select_routes O w fin); reflexivity.
+Qed.
+
+Lemma map_root_svc_perm l l' : Forall2 svc_perm l l' -> map s_root l = map s_root l'.
+Proof. induction 1 as [|a b la lb [Hab _] Hf IH]; [reflexivity|]. cbn. now rewrite Hab, IH. Qed.
+
+(* C03, order independence, RouterJSR311 *)
+Theorem jsr_order_independent t t' req :
+  t_router t = Jsr311 -> t_router t' = Jsr311 ->
+  tbl_perm t t' ->
+  (forall w, In w (t_services t) -> NoDup (map (route_key w) (s_routes w))) ->
+  NoDup (map s_root (t_services t)) -> jsr_no_tie O (rq_path req) (t_services t) ->
+  routed_equiv_perm (route_request O t req) (route_request O t' req).
+Proof.
+  intros Hr Hr' (l & Hf & Hp) Hkeys Hnd Hnt. unfold route_request.
+  rewrite (select_route_jsr t req Hr), (select_route_jsr t' req Hr').
+  assert (Hroots : map s_root (t_services t) = map s_root l) by now apply map_root_svc_perm.
+  assert (Hnd' : NoDup (map s_root l)) by now rewrite <- Hroots.
+  assert (Hnt' : jsr_no_tie O (rq_path req) l).
+  { intros w1 w2 k H1 H2 K1 K2.
+    assert (Hback : forall w', In w' l -> exists w, In w (t_services t) /\ s_root w = s_root w').
+    { clear -Hf. induction Hf as [|a b la lb [Hab _] Hf IH]; intros w' Hin; [contradiction|]. destruct Hin as [<-|Hin].
+      - exists a. split; [now left|exact Hab].
+      - destruct (IH _ Hin) as (w & Hw & Hs). exists w. split; [now right|exact Hs]. }
+    destruct (Hback _ H1) as (v1 & Hv1 & E1). destruct (Hback _ H2) as (v2 & Hv2 & E2).
+    rewrite <- E1, <- E2. apply (Hnt v1 v2 k); try assumption; congruence. }
+  rewrite <- (detect_dispatcher_perm (rq_path req) l (t_services t') Hp Hnd' Hnt').
+  pose proof (detect_dispatcher_svc_perm (rq_path req) _ _ Hf) as Hd.
+  destruct (detect_dispatcher O (rq_path req) (t_services t)) as [[w fin]|] eqn:E;
+  destruct (detect_dispatcher O (rq_path req) l) as [[w' fin']|] eqn:E'; try contradiction; [|cbn; exact Logic.I].
+  destruct Hd as [[Hroot Hroutes] <-].
+  assert (Hin : In w (t_services t)) by (now apply detect_dispatcher_sound in E as (Hin & _)).
+  pose proof (jsr_routes_order_independent O w w' fin req Hroot Hroutes (Hkeys w Hin)) as He.
+  destruct (detect_route (map rc_route (jsr_select_routes O w fin)) req) as [r|e];
+  destruct (detect_route (map rc_route (jsr_select_routes O w' fin)) req) as [r'|e']; cbn in He; try contradiction.
+  - subst r'. unfold extract_parameters. rewrite Hr, Hr'.
+    assert (Hx : jsr_extract_parameters O w r (rq_path req) = jsr_extract_parameters O w' r (rq_path req))
+      by (unfold jsr_extract_parameters; now rewrite Hroot).
+    rewrite Hx. destruct (jsr_extract_parameters O w' r (rq_path req)); cbn [routed_equiv_perm]; [|exact Logic.I].
+    repeat split; auto.
+  - exact He.
+Qed.
+End JsrTable.
+
+(* ---- the premises as booleans ---- *)
+Lemma distinct_NoDup l : distinct l = true -> NoDup l.
+Proof.
+  induction l as [|x l IH]; [constructor|]. cbn. intros H. apply andb_true_iff in H as [Hx Hl].
+  constructor; [|now apply IH]. intros Hin. apply mem_In in Hin. rewrite Hin in Hx. discriminate.
+Qed.
+
+Lemma keys_distinct_NoDup t : keys_distinct t = true ->
+  forall w, In w (t_services t) -> NoDup (map (route_key w) (s_routes w)).
+Proof. unfold keys_distinct. rewrite forallb_forall. intros H w Hw. apply distinct_NoDup, H, Hw. Qed.
+
+Lemma fold_max_ge_acc l : forall a, a <= fold_left Nat.max l a.
+Proof. induction l as [|y l IH]; intros a; cbn [fold_left]; [lia|]. etransitivity; [|apply IH]. lia. Qed.
+
+Lemma fold_max_ge l : forall a x, In x l -> x <= fold_left Nat.max l a.
+Proof.
+  induction l as [|y l IH]; intros a x H; [contradiction|]. cbn [fold_left]. destruct H as [<-|H]; [|now apply IH].
+  etransitivity; [|apply fold_max_ge_acc]. lia.
+Qed.
+
+Lemma fold_max_le l m : forall a, a <= m -> (forall x, In x l -> x <= m) -> fold_left Nat.max l a <= m.
+Proof.
+  induction l as [|y l IH]; intros a Ha H; cbn [fold_left]; [exact Ha|]. apply IH.
+  - specialize (H y (or_introl eq_refl)). lia.
+  - intros x Hx. apply H. now right.
+Qed.
+
+Lemma length_le1_eq {A} (l : list A) a b : List.length l <= 1 -> In a l -> In b l -> a = b.
+Proof.
+  destruct l as [|x [|y l]]; cbn; intros H Ha Hb.
+  - contradiction.
+  - destruct Ha as [<-|[]], Hb as [<-|[]]. reflexivity.
+  - lia.
+Qed.
+
+Section Bool.
+Variable O : oracles.
+
+Lemma top_unique_no_tie qts wss : top_unique O qts wss = true -> no_tie O qts wss.
+Proof.
+  unfold top_unique. set (cl := flat_map _ wss). set (best := fold_left Nat.max cl 0). intros H. apply Nat.leb_le in H.
+  intros w1 w2 H1 H2 C1 C2 Hs Hmax.
+  assert (Hb : forall w, In w wss -> claims O qts w = true -> score O qts w <= score O qts w1 -> score O qts w1 <= score O qts w ->
+                         In w (filter (fun w => claims O qts w && Nat.eqb (score O qts w) best) wss)).
+  { intros w Hw Cw Hle Hge. apply filter_In. split; [exact Hw|]. rewrite Cw. cbn [andb]. apply Nat.eqb_eq.
+    assert (Hin1 : In (score O qts w1) cl) by (subst cl; apply in_flat_map; exists w1; split; [exact H1|]; rewrite C1; now left).
+    pose proof (fold_max_ge cl 0 _ Hin1) as G1. fold best in G1.
+    assert (G2 : best <= score O qts w1).
+    { subst best. apply fold_max_le; [lia|]. intros x Hx. subst cl. apply in_flat_map in Hx as (w3 & Hw3 & Hx).
+      destruct (claims O qts w3) eqn:C3; [|contradiction]. destruct Hx as [<-|[]]. now apply Hmax. }
+    lia. }
+  apply (length_le1_eq _ w1 w2 H); apply Hb; auto; lia.
+Qed.
+
+Lemma key_eqb_refl k : key_eqb k k = true.
+Proof. unfold key_eqb. now rewrite !Nat.eqb_refl. Qed.
+
+Lemma jsr_keys_unique_sound path wss :
+  jsr_keys_unique O path wss = true -> NoDup (map s_root wss) /\ jsr_no_tie O path wss.
+Proof.
+  unfold jsr_keys_unique. intros H. apply andb_true_iff in H as [Hd Hp]. split; [now apply distinct_NoDup|].
+  intros w1 w2 k H1 H2 K1 K2.
+  destruct (AgreeProofs.pairwise_In _ _ _ _ Hp H1 H2) as [->|[Hc|Hc]]; [reflexivity| |]; exfalso.
+  - rewrite K1, K2, key_eqb_refl in Hc. discriminate.
+  - rewrite K1, K2, key_eqb_refl in Hc. discriminate.
+Qed.
+
+Theorem curly_order_independent_b t t' req :
+  t_router t = Curly -> t_router t' = Curly -> tbl_perm t t' ->
+  keys_distinct t = true -> top_unique O (tokenize (rq_path req)) (t_services t) = true ->
+  routed_equiv_perm (route_request O t req) (route_request O t' req).
+Proof.
+  intros Hr Hr' Hp Hk Ht. apply curly_order_independent; auto.
+  - now apply keys_distinct_NoDup.
+  - now apply top_unique_no_tie.
+Qed.
+
+Theorem jsr_order_independent_b t t' req :
+  t_router t = Jsr311 -> t_router t' = Jsr311 -> tbl_perm t t' ->
+  keys_distinct t = true -> jsr_keys_unique O (rq_path req) (t_services t) = true ->
+  routed_equiv_perm (route_request O t req) (route_request O t' req).
+Proof.
+  intros Hr Hr' Hp Hk Hj. destruct (jsr_keys_unique_sound _ _ Hj) as [Hnd Hnt].
+  apply jsr_order_independent; auto. now apply keys_distinct_NoDup.
+Qed.
+End Bool.
